@@ -656,9 +656,12 @@ def run_o_history(inp):
             a1 = _tv_answers(tv, tq, st.get("fo", True), spoil=True)
             a2 = _tv_answers(tv, tq, st.get("fo", True))
             a3 = _tv_answers(_tv_fresh(tv), tq, st.get("fo", True))
+            # the rows of origin_to grow like cosh d(o, p) and lose that many digits (twice: normalize rescales the stored
+            # vector in place by a positive factor, so two calls on one object differ by roundoff)
+            sc = 1 + float(np.abs(a3[0]).max()) ** 2
             log.append({"k": k, "op": op, "what": "answers equal those of a fresh object with the same data, and survive overwriting returned arrays",
-                        "ok": bool(np.abs(a1[0] - a3[0]).max() <= ftol and np.abs(a1[1] - a3[1]).max() <= ftol
-                                   and np.abs(a1[0] - a2[0]).max() <= 1e-12 and np.abs(a1[1] - a2[1]).max() <= 1e-12)})
+                        "ok": bool(np.abs(a1[0] - a3[0]).max() <= ftol * sc and np.abs(a1[1] - a3[1]).max() <= ftol * sc
+                                   and np.abs(a1[0] - a2[0]).max() <= 1e-12 * sc and np.abs(a1[1] - a2[1]).max() <= 1e-12 * sc)})
         if inp["obj"] == "point":
             # the same history on the basepoint alone: Point.origin_to after transformations
             pt = H.Point(np.array(tv.point, dtype=float).copy()) if k == 0 else pt
